@@ -343,4 +343,7 @@ def run(ctx, verdict):
                         "what must come back is fixed only for standard documents (and documents standard apart from a numeric "
                         "id with at most 15 significant digits); for every other input: no panic, no hang, error or well-formed result",
                         "carve-outs of the property (empty geometry -> default layout, XYM -> XYZ, non-XY geometry with an "
-                        "empty first component, multipoint with an empty member) are encoded in RoundTrips/Canon"]
+                        "empty first component, multipoint with an empty member) are encoded in RoundTrips/Canon; for a geometry holding "
+                        "a multipoint with an empty member only 'no panic' (and a well-formed decoder result) is demanded",
+                        "left open: the spelling of a number (the recorder tags numbers by value: 1, 1.0 and 1e0 are the same token), "
+                        "null versus empty-object properties after a round trip"]
